@@ -1991,7 +1991,7 @@ func Now(scope *ReferenceScope, fn parser.Function, args []value.Primary) (value
 }
 
 func JsonObject(ctx context.Context, scope *ReferenceScope, fn parser.Function) (value.Primary, error) {
-	if len(scope.Records) < 1 {
+	if len(scope.Records) < 1 || !scope.Records[0].IsInRange() {
 		return value.NewNull(), nil
 	}
 
